@@ -76,6 +76,35 @@ def main(ctx, order=ORDER, pid=PID, tags=TAGS, maxl=MAXL, props="C02", oracle=No
                                "what": "compute_shell_pair with shift (%s) on an engine built for derivative order %d differs from the block a plain engine computes for the genuinely shifted shells by %.3g (largest element %.3g)" % (where, order, w, sc), "hard": True})
     ctx.obligation("shifted blocks of the derivative engine = blocks of genuinely shifted shells on a plain engine (rel 1e-12)", not shift_fail,
                    json.dumps(shift_fail[:1])[:800])
+    # the shifted blocks against the PIPELINE model (Model/ShellPair.lean): the same engine configuration the derivative routines use
+    # (tables sized for maxLB + derivative order) and the shifts they pass, bit for bit
+    from vlib import pairlib as pl
+    pb = build.build("plain")
+    pl.regen(ctx, pb)
+    prng = random.Random(ctx.seed * 101 + order)
+    pcases = []
+    shifts = [(1, 0), (0, 1), (-1, 0), (0, -1), (1, 1), (-1, 1), (1, -1)] + ([(2, 0), (0, 2), (-2, 0), (0, -2), (-1, -1)] if order == 2 else [])
+    for i in range(10 if quick else 60):
+        mb = prng.randint(1, 2)
+        LA, LB = prng.randint(0, mb), prng.randint(0, mb)
+        sa, sb = shifts[(i + ctx.seed) % len(shifts)]
+        if LA + sa < 0 or LB + sb < 0:
+            sa, sb = abs(sa), abs(sb)
+        C = [prng.uniform(-1, 1) for _ in range(3)]
+        kind = [("general", "general"), ("on", "general"), ("general", "on"), ("axis", "plane")][i % 4]
+        A = pl.rand_shell(prng, LA, pl.place(prng, C, kind[0]))
+        B = pl.rand_shell(prng, LB, pl.place(prng, C, kind[1])) if i % 5 else dict(A, l=LB)
+        pcases.append(dict(maxLB=mb, maxLU=prng.randint(1, 3), deriv=order, sa=sa, sb=sb, ecp=pl.rand_ecp(prng, prng.randint(1, 3), C), A=A, B=B, kind=list(kind)))
+    for c in pcases:
+        c["ecp"]["prims"] = [p for p in c["ecp"]["prims"] if p[1] <= c["maxLU"]] or [[2, 0, 1.0, 1.0]]
+    pcases.sort(key=lambda c: (c["maxLB"], c["maxLU"]))
+    pruns = pl.run_real(pl.pair_driver(pb), pcases)
+    pbad = []
+    if os.path.exists(core.DRIVER):
+        pl.run_model(pruns, ("code",))
+        pbad = [{"case": pl.fmt_case(r.case)} for r in pruns if not pl.same_bits(r.bits, r.model.get("code"))]
+    ctx.obligation("correspondence: Lean pipeline model = real compute_shell_pair with shifts on engines built for derivative order %d, bit for bit (%d blocks)" % (order, len(pruns)),
+                   not pbad, json.dumps(pbad[:2])[:800])
     classes = {}
     for c in cases:
         classes[c["branch"]] = classes.get(c["branch"], 0) + 1
